@@ -463,10 +463,38 @@ def run_lines(exe, lines, nproc=NCPU, timeout=1200, env=None, big_stack=False):
     return res
 
 
+def noise_home():
+    """a HOME whose git configuration ignores every file: imdl must not consult it (its walker switches the `ignore` crate's
+    standard filters off unless --ignore is given)"""
+    h = os.path.join(CACHE, "home")
+    if not os.path.exists(os.path.join(h, ".gitconfig")):
+        os.makedirs(os.path.join(h, ".config", "git"), exist_ok=True)
+        with open(os.path.join(h, ".config", "git", "ignore"), "w") as f:
+            f.write("*\n")
+        with open(os.path.join(h, ".gitignore_global"), "w") as f:
+            f.write("*\n")
+        with open(os.path.join(h, ".gitconfig"), "w") as f:
+            f.write("[core]\n\texcludesFile = %s\n" % os.path.join(h, ".gitignore_global"))
+    return h
+
+
+def noise_env():
+    """Environment every run of the real binary gets unless the case sets the variable itself: variables imdl does not read
+    (it reads NO_COLOR, TERM, IMDL_TERM_WIDTH and the logger's RUST_LOG) and therefore must not react to - a build
+    environment's SOURCE_DATE_EPOCH, a Turkish locale, a tiny COLUMNS, colour-forcing conventions of other tools, a git
+    configuration that ignores everything. (Added after seeded changes C05-8 and C06-7, which made the result depend on
+    SOURCE_DATE_EPOCH and on the user's global gitignore.)"""
+    h = noise_home()
+    return {"SOURCE_DATE_EPOCH": "86400", "LANG": "tr_TR.UTF-8", "LC_ALL": "tr_TR.UTF-8", "COLUMNS": "37", "LINES": "9",
+            "CLICOLOR_FORCE": "1", "FORCE_COLOR": "1", "COLORTERM": "truecolor", "XDG_CONFIG_HOME": os.path.join(h, ".config"),
+            "HOME": h, "USER": "nobody", "TMPDIR": tempfile.gettempdir(), "GIT_DIR": os.path.join(h, "no-such-git-dir")}
+
+
 def run_cmd(argv, cwd=None, stdin=b"", env=None, timeout=60):
     """Run the real binary (or anything): (returncode, stdout bytes, stderr bytes). A negative
     returncode is a terminating signal."""
-    e = {"PATH": os.environ.get("PATH", ""), "HOME": os.environ.get("HOME", "/root"), "RUST_BACKTRACE": "0"}
+    e = {"PATH": os.environ.get("PATH", ""), "RUST_BACKTRACE": "0"}
+    e.update(noise_env())
     if env:
         e.update(env)
     try:
